@@ -7,13 +7,16 @@
    (b) Laws: the textbook operators are confronted with independent characterisations over small lattices
        (length of a replacement, pieces of a split concatenate to the string, escaping length, ...). *)
 EXTENDS SimpleStrLattice
-CONSTANTS GA, GL, MaxId
+CONSTANTS GA, GL, GH, MaxId
 VARIABLES own, nextid
 mvars == <<vars, own, nextid>>
 None == <<0, 0>>
 GS == SeqsUpTo(GA, GL)
 GP == 0..(GL + 1)
-OC(fn, i, j, k, s1, s2, n1, n2) == [op |-> "o", fn |-> fn, i |-> i, j |-> j, k |-> k, s1 |-> s1, s2 |-> s2, n1 |-> n1, n2 |-> n2]
+\* sizes of the object-level `sub': the small positions and the symbolic sizes GH, as pairs <<number, name>>
+GSz == { <<p, "">> : p \in GP } \cup { <<0, h>> : h \in GH }
+OC(fn, i, j, k, s1, s2, n1, n2) == [op |-> "o", fn |-> fn, i |-> i, j |-> j, k |-> k, s1 |-> s1, s2 |-> s2, n1 |-> n1, n2 |-> n2, hg |-> <<"", "">>]
+OCH(fn, i, j, b, n) == [op |-> "o", fn |-> fn, i |-> i, j |-> j, k |-> 0, s1 |-> <<>>, s2 |-> <<>>, n1 |-> b[1], n2 |-> n[1], hg |-> <<b[2], n[2]>>]
 
 MInit == Init /\ own = [i \in Objs |-> None] /\ nextid = 1
 
@@ -46,7 +49,7 @@ MNext == \/ \E i \in Objs, s \in GS : MObj(OC("new", i, 0, 0, s, <<>>, 0, 0))
                                         \/ MObj(OC("lower", i, j, 0, <<>>, <<>>, 0, 0))
                                         \/ MObj(OC("printable", i, j, 0, <<>>, <<>>, 0, 0))
                                         \/ MObj(OC("pad", i, j, 0, <<>>, <<>>, 32, 0))
-         \/ \E i \in Objs, j \in Objs, b \in GP, n \in GP : MObj(OC("sub", i, j, 0, <<>>, <<>>, b, n))
+         \/ \E i \in Objs, j \in Objs, b \in GSz, n \in GSz : MObj(OCH("sub", i, j, b, n))
          \/ \E i \in Objs, s \in GS : MObj(OC("appendlit", i, 0, 0, s, <<>>, 0, 0))
          \/ \E i \in Objs, a \in GA, b \in GA : MObj(OC("replacech", i, 0, 0, <<>>, <<>>, a, b))
          \/ \E i \in Objs, s \in GS, t \in GS : MObj(OC("replacestr", i, 0, 0, s, t, 0, 0))
@@ -90,6 +93,16 @@ StrLaws ==
          /\ ReplaceSub(s, t, t) = s
          \* when the replacement shares no byte with the pattern, no occurrence of the pattern is left
          /\ (t # <<>> /\ \A x \in ToSetOf(w) : x \notin ToSetOf(t)) => ~HasSub(ReplaceSub(s, t, w), t)
+    \* the symbolic sizes: every number >= the length of the string behaves like Beyond, in every operation that takes one
+    /\ \A s \in S2, t \in S2, b \in P, c \in Chars2 : \A big \in {Len(s), Len(s) + 1, Len(s) + Len(t) + 7, 2147483646} :
+         /\ SubStr1(s, Beyond) = <<>> /\ SubStr1(s, big) = <<>>
+         /\ SubStr2(s, b, Beyond) = SubStr1(s, b) /\ SubStr2(s, b, big) = SubStr1(s, b)
+         /\ SubStr2(s, Beyond, b) = <<>> /\ SubStr2(s, big, b) = <<>> /\ SubStr2(s, Beyond, Beyond) = <<>>
+         /\ FindFrom(s, Beyond, c) = -1 /\ FindFrom(s, big, c) = -1
+         /\ CmpSignN(s, t, Beyond) = CmpSign(s, t) /\ CmpSignN(s, t, Max2(Len(s), Len(t)) + 1) = CmpSign(s, t)
+         /\ TakeN(s, Beyond - 1) = s /\ TakeN(s, big) = s
+         /\ Rep(<<>>, Beyond) = <<>>
+    /\ \A V \in SUBSET BitPos, M \in SUBSET BitPos : MaskedBits(V, M, Beyond) = MaskedBits(V, M, 8)
     /\ \A s \in S2, b \in P, n \in P :
          /\ SubStr2(s, b, n) = [i \in 1..Min2(n, Max2(Len(s) - b, 0)) |-> s[b + i]]
          /\ SubStr1(s, b) = SubStr2(s, b, Len(s) + 1)
